@@ -82,6 +82,9 @@ pub enum Codec {
     Native,
     Bincode,
     Json,
+    /// not a codec: an in-memory copy through the type's Clone impl (only meaningful for typed objects, i.e. in
+    /// flow_in_memory; for byte blobs it is the identity)
+    Clone,
 }
 #[derive(Clone, Debug, PartialEq, Eq, Hash, serde::Serialize, serde::Deserialize)]
 pub struct Blob {
@@ -110,14 +113,14 @@ pub mod hexser {
 
 fn load<T: serde::de::DeserializeOwned, X: CustomCode>(b: &Blob, native: impl Fn(&[u8]) -> Result<T, ProtocolError<X>>) -> R<T> {
     match b.codec {
-        Codec::Native => native(&b.bytes).map_err(pe),
+        Codec::Native | Codec::Clone => native(&b.bytes).map_err(pe),
         Codec::Bincode => bincode::deserialize(&b.bytes).map_err(|_| E::Serde),
         Codec::Json => serde_json::from_slice(&b.bytes).map_err(|_| E::Serde),
     }
 }
 fn save<T: serde::Serialize>(x: &T, to: Codec, native: impl Fn(&T) -> Vec<u8>) -> R<Blob> {
     Ok(match to {
-        Codec::Native => Blob::new(to, native(x)),
+        Codec::Native | Codec::Clone => Blob::new(Codec::Native, native(x)),
         Codec::Bincode => Blob::new(to, bincode::serialize(x).map_err(|_| E::Harness("bincode ser".into()))?),
         Codec::Json => Blob::new(to, serde_json::to_vec(x).map_err(|_| E::Harness("json ser".into()))?),
     })
@@ -317,6 +320,8 @@ pub trait Suite: Sync {
     fn slogin_finish(&self, st: &Blob, fin: &Blob) -> R<Vec<u8>>;
     /// decode through the blob's codec, encode through `to`
     fn recode(&self, kind: Kind, b: &Blob, to: Codec) -> R<Blob>;
+    /// decode both and compare the typed objects with the library's own `==`
+    fn same(&self, kind: Kind, a: &Blob, b: &Blob) -> R<bool>;
     /// Execute `ops` one after the other on ONE ServerSetup object (deserialized once) and on password-file objects
     /// that stay in memory; returns each operation's outputs
     fn server_session(&self, setup: &[u8], files: &[Vec<u8>], ops: &[SrvOp]) -> R<Vec<R<Vec<Vec<u8>>>>>;
@@ -336,6 +341,9 @@ pub trait Suite: Sync {
     /// serde forms of the wrapper key types
     fn ke_sk_serde(&self, sk: &Blob) -> R<Vec<u8>>;
     fn ke_pk_serde(&self, pk: &Blob) -> R<Vec<u8>>;
+    /// the serde form the implementation itself produces for a key wrapper (native bytes in, blob in `codec` out)
+    fn ke_sk_encode(&self, sk: &[u8], codec: Codec) -> R<Blob>;
+    fn ke_pk_encode(&self, pk: &[u8], codec: Codec) -> R<Blob>;
 }
 
 /// operations with the server's static key behind the external-key interface (C18)
@@ -394,11 +402,12 @@ pub struct FlowOut {
 }
 
 /// save + reload a typed object through a chain of codecs (Native = the type's own serialize/deserialize)
-fn reload_obj<T: serde::Serialize + serde::de::DeserializeOwned, X: CustomCode>(x: T, chain: &[Codec], ser: impl Fn(&T) -> Vec<u8>, de: impl Fn(&[u8]) -> Result<T, ProtocolError<X>>) -> R<T> {
+fn reload_obj<T: serde::Serialize + serde::de::DeserializeOwned + Clone, X: CustomCode>(x: T, chain: &[Codec], ser: impl Fn(&T) -> Vec<u8>, de: impl Fn(&[u8]) -> Result<T, ProtocolError<X>>) -> R<T> {
     let mut x = x;
     for c in chain {
         x = match c {
             Codec::Native => de(&ser(&x)).map_err(pe)?,
+            Codec::Clone => x.clone(),
             Codec::Bincode => bincode::deserialize(&bincode::serialize(&x).map_err(|_| E::Harness("bincode ser".into()))?).map_err(|_| E::Serde)?,
             Codec::Json => serde_json::from_slice(&serde_json::to_vec(&x).map_err(|_| E::Harness("json ser".into()))?).map_err(|_| E::Serde)?,
         };
@@ -410,6 +419,14 @@ macro_rules! recode_arm {
     ($ty:ty, $b:expr, $to:expr) => {{
         let x: $ty = load($b, |x| <$ty>::deserialize(x))?;
         save(&x, $to, |x| x.serialize().to_vec())
+    }};
+}
+
+macro_rules! same_arm {
+    ($ty:ty, $a:expr, $b:expr) => {{
+        let x: $ty = load($a, |x| <$ty>::deserialize(x))?;
+        let y: $ty = load($b, |x| <$ty>::deserialize(x))?;
+        Ok(x == y)
     }};
 }
 
@@ -499,6 +516,21 @@ macro_rules! suite {
                     Kind::CReg => recode_arm!(ClientRegistration<$name>, b, to),
                     Kind::CLogin => recode_arm!(ClientLogin<$name>, b, to),
                     Kind::SLogin => recode_arm!(ServerLogin<$name>, b, to),
+                }
+            }
+            fn same(&self, kind: Kind, a: &Blob, b: &Blob) -> R<bool> {
+                match kind {
+                    Kind::RegReq => same_arm!(RegistrationRequest<$name>, a, b),
+                    Kind::RegResp => same_arm!(RegistrationResponse<$name>, a, b),
+                    Kind::Upload => same_arm!(RegistrationUpload<$name>, a, b),
+                    Kind::CredReq => same_arm!(CredentialRequest<$name>, a, b),
+                    Kind::CredResp => same_arm!(CredentialResponse<$name>, a, b),
+                    Kind::Fin => same_arm!(CredentialFinalization<$name>, a, b),
+                    Kind::File => same_arm!(ServerRegistration<$name>, a, b),
+                    Kind::Setup => same_arm!(ServerSetup<$name>, a, b),
+                    Kind::CReg => same_arm!(ClientRegistration<$name>, a, b),
+                    Kind::CLogin => same_arm!(ClientLogin<$name>, a, b),
+                    Kind::SLogin => same_arm!(ServerLogin<$name>, a, b),
                 }
             }
             fn server_session(&self, setup: &[u8], files: &[Vec<u8>], ops: &[SrvOp]) -> R<Vec<R<Vec<Vec<u8>>>>> {
@@ -597,15 +629,23 @@ macro_rules! suite {
             }
             fn ke_sk_serde(&self, sk: &Blob) -> R<Vec<u8>> {
                 let k: PrivateKey<$ke> = match sk.codec {
-                    Codec::Native => PrivateKey::<$ke>::deserialize(&sk.bytes).map_err(ie)?,
+                    Codec::Native | Codec::Clone => PrivateKey::<$ke>::deserialize(&sk.bytes).map_err(ie)?,
                     Codec::Bincode => bincode::deserialize(&sk.bytes).map_err(|_| E::Serde)?,
                     Codec::Json => serde_json::from_slice(&sk.bytes).map_err(|_| E::Serde)?,
                 };
                 Ok(k.serialize().to_vec())
             }
+            fn ke_sk_encode(&self, sk: &[u8], codec: Codec) -> R<Blob> {
+                let k = PrivateKey::<$ke>::deserialize(sk).map_err(ie)?;
+                save(&k, codec, |x| x.serialize().to_vec())
+            }
+            fn ke_pk_encode(&self, pk: &[u8], codec: Codec) -> R<Blob> {
+                let k = PublicKey::<$ke>::deserialize(pk).map_err(ie)?;
+                save(&k, codec, |x| x.serialize().to_vec())
+            }
             fn ke_pk_serde(&self, pk: &Blob) -> R<Vec<u8>> {
                 let k: PublicKey<$ke> = match pk.codec {
-                    Codec::Native => PublicKey::<$ke>::deserialize(&pk.bytes).map_err(ie)?,
+                    Codec::Native | Codec::Clone => PublicKey::<$ke>::deserialize(&pk.bytes).map_err(ie)?,
                     Codec::Bincode => bincode::deserialize(&pk.bytes).map_err(|_| E::Serde)?,
                     Codec::Json => serde_json::from_slice(&pk.bytes).map_err(|_| E::Serde)?,
                 };
